@@ -2743,6 +2743,16 @@ where
                 let has_content = self.resolve_reference_link_definitions(content);
                 if !has_content {
                     node.detach();
+                    // `add_child` finalizes a list before the blocks still open inside it, so the
+                    // tightness of an already closed list was computed with this paragraph present.
+                    if let Some(list) = parent.and_then(|item| item.parent()) {
+                        let list_ast = &mut *list.data.borrow_mut();
+                        if !list_ast.open {
+                            if let NodeValue::List(ref mut nl) = list_ast.value {
+                                nl.tight = Self::list_is_tight(list);
+                            }
+                        }
+                    }
                 }
             }
             NodeValue::CodeBlock(ref mut ncb) => {
@@ -2790,41 +2800,40 @@ where
                 mem::swap(&mut nhb.literal, content);
             }
             NodeValue::List(ref mut nl) => {
-                nl.tight = true;
-                let mut ch = node.first_child();
-
-                while let Some(item) = ch {
-                    #[cfg(comrak_verif)]
-                    crate::verif::step();
-                    if item.data.borrow().last_line_blank && item.next_sibling().is_some() {
-                        nl.tight = false;
-                        break;
-                    }
-
-                    let mut subch = item.first_child();
-                    while let Some(subitem) = subch {
-                        #[cfg(comrak_verif)]
-                        crate::verif::step();
-                        if (item.next_sibling().is_some() || subitem.next_sibling().is_some())
-                            && nodes::ends_with_blank_line(subitem)
-                        {
-                            nl.tight = false;
-                            break;
-                        }
-                        subch = subitem.next_sibling();
-                    }
-
-                    if !nl.tight {
-                        break;
-                    }
-
-                    ch = item.next_sibling();
-                }
+                nl.tight = Self::list_is_tight(node);
             }
             _ => (),
         }
 
         parent
+    }
+
+    fn list_is_tight(list: &'a AstNode<'a>) -> bool {
+        let mut ch = list.first_child();
+
+        while let Some(item) = ch {
+            #[cfg(comrak_verif)]
+            crate::verif::step();
+            if item.data.borrow().last_line_blank && item.next_sibling().is_some() {
+                return false;
+            }
+
+            let mut subch = item.first_child();
+            while let Some(subitem) = subch {
+                #[cfg(comrak_verif)]
+                crate::verif::step();
+                if (item.next_sibling().is_some() || subitem.next_sibling().is_some())
+                    && nodes::ends_with_blank_line(subitem)
+                {
+                    return false;
+                }
+                subch = subitem.next_sibling();
+            }
+
+            ch = item.next_sibling();
+        }
+
+        true
     }
 
     fn process_inlines(&mut self) {
